@@ -428,6 +428,7 @@ def compile_cases(tier: str) -> list[tuple]:
         ('toffoli, line(3), level 1', c_tof, line3, 1),
         ('pre-blocked circuit, ring(5) cz/u3, level 1', c_blk, ring5, 1),
         ('1q circuit, 2-qudit machine, level 1', c_one, two, 1),
+        ('1q circuit, 2-qudit machine, level 4', c_one, two, 4),
         ('3q circuit with barrier, star(4), level 2', c_basic, star4, 2),
         ('toffoli, line(4) cz/rz/sx, level 2', c_tof, line4cz, 2),
     ]
